@@ -10,7 +10,8 @@ open YaegiVerif.Expected.C06 (facts)
 @[simp] theorem facts_prependCall : facts.prependCall = true := rfl
 @[simp] theorem facts_prependCallBin : facts.prependCallBin = true := rfl
 @[simp] theorem facts_prependBuiltin : facts.prependBuiltin = true := rfl
-@[simp] theorem facts_argsByRef : facts.argsByRef = true := rfl
+@[simp] theorem facts_argsByRefCall : facts.argsByRefCall = false := rfl
+@[simp] theorem facts_argsByRefBin : facts.argsByRefBin = false := rfl
 @[simp] theorem facts_recoverReadsAnc : facts.recoverReadsAnc = true := rfl
 @[simp] theorem facts_recoverClears : facts.recoverClears = true := rfl
 @[simp] theorem facts_panicPassesValue : facts.panicPassesValue = true := rfl
@@ -72,9 +73,10 @@ theorem evalArg_eq (x : Arg) (a : Int) (d : List Entry) (r : Option Val) (res : 
     evalArg x a ⟨d, r, res, l⟩ = Spec.evalArg x a ⟨d, res⟩ := by
   cases x <;> rfl
 
-theorem storeArg_val (x : Arg) (a : Int) (self : Frame) (h : x.isRes = false) :
-    storeArg facts x a self = .val (evalArg x a self) := by
-  cases x <;> simp_all [storeArg, Arg.isRes, evalArg]
+/-- a site that copies keeps the value the argument has at the defer statement, whatever the argument is -/
+theorem storeArg_val (x : Arg) (a : Int) (self : Frame) :
+    storeArg false x a self = .val (evalArg x a self) := by
+  cases x <;> simp [storeArg, evalArg]
 
 theorem body_sim (cy : CallFn) (cs : Spec.CallFn) (hs : Sim cy cs) (hn : Spec.NoneStays cs) :
     ∀ (code : Code) (seen : Bool) (a : Int) (anc self : Frame) (w : World),
@@ -128,10 +130,10 @@ theorem body_sim (cy : CallFn) (cs : Spec.CallFn) (hs : Sim cy cs) (hn : Spec.No
     simp [domBody] at hd
   | deferBin s x k ih =>
     intro seen a anc self w hd hrec hok hseen
-    simp only [domBody, Bool.and_eq_true, Bool.not_eq_true'] at hd
+    simp only [domBody] at hd
     obtain ⟨sd, sr, sres, sl⟩ := self
-    simp only [execBodyY, Spec.execBody, storeArg_val x a _ hd.1, evalArg_eq, pushEntry, Spec.push, facts_prependCallBin, if_true]
-    exact ih true a anc ⟨⟨.bin s, .val (Spec.evalArg x a ⟨sd, sres⟩)⟩ :: sd, sr, sres, sl⟩ w hd.2 hrec
+    simp only [execBodyY, Spec.execBody, facts_argsByRefBin, storeArg_val, evalArg_eq, pushEntry, Spec.push, facts_prependCallBin, if_true]
+    exact ih true a anc ⟨⟨.bin s, .val (Spec.evalArg x a ⟨sd, sres⟩)⟩ :: sd, sr, sres, sl⟩ w hd hrec
       (entriesOK_cons _ _ (by simp [Entry.ok]) (by simp [Entry.quiet]) hok) (fun _ => rfl)
   | deferDel t k ih =>
     intro seen a anc self w hd hrec hok hseen
@@ -143,9 +145,9 @@ theorem body_sim (cy : CallFn) (cs : Spec.CallFn) (hs : Sim cy cs) (hn : Spec.No
   | defer f x k _ ih =>
     intro seen a anc self w hd hrec hok hseen
     simp only [domBody, Bool.and_eq_true, Bool.not_eq_true', Bool.or_eq_true] at hd
-    obtain ⟨⟨⟨hf, hx⟩, hq⟩, hk⟩ := hd
+    obtain ⟨⟨hf, hq⟩, hk⟩ := hd
     obtain ⟨sd, sr, sres, sl⟩ := self
-    simp only [execBodyY, Spec.execBody, storeArg_val x a _ hx, evalArg_eq, pushEntry, Spec.push, facts_prependCall, if_true]
+    simp only [execBodyY, Spec.execBody, facts_argsByRefCall, storeArg_val, evalArg_eq, pushEntry, Spec.push, facts_prependCall, if_true]
     refine ih true a anc ⟨⟨.src f, .val (Spec.evalArg x a ⟨sd, sres⟩)⟩ :: sd, sr, sres, sl⟩ w hk hrec
       (entriesOK_cons _ _ (by simpa [Entry.ok, Dom] using hf) ?_ hok) (fun _ => rfl)
     intro hne
